@@ -78,3 +78,8 @@ EDITS += [
      'old': '    """Classify data into storm and interstorm intervals"""\n    cursor = connection.cursor()',
      'new': '    """Classify data into storm and interstorm intervals"""\n    if storm_rain_threshold_mm_h is None:\n        storm_rain_threshold_mm_h = 4.0\n    cursor = connection.cursor()'},
 ]
+
+# round 8 (hardening that is not)
+EDITS += [
+    {'id': 'r8-levels-rounded-before-runs', 'expect': 'fire', 'rule': 'C03.O1', 'file': 'spowtd/classify.py', 'old': '    check_for_uniform_time_steps(epoch)\n    (time_step_h,) = cursor.execute(', 'new': '    zeta_mm = np.round(zeta_mm, 6)\n    check_for_uniform_time_steps(epoch)\n    (time_step_h,) = cursor.execute('},
+]
